@@ -140,7 +140,8 @@ def other_entry_cases():
     out.append({'op': 'ffi_validate', 'static': {'kind': 'set', 'items': []}, 'templates': {'t0': {'cedar': 'permit(principal == ?principal, action, resource) when { principal.nope };'}},
                 'links': [{'templateId': 't0', 'newId': 'l0', 'values': {'?principal': uidj('User', 'bob')}}, {'templateId': 't0', 'newId': 'l1', 'values': {'?principal': uidj('User', 'alice')}}], 'schema': {'cedar': SCHEMA_CEDAR}})
     pol_docs = [{'cedar': POLICIES['p0']}, {'cedar': POLICIES['p2']}, {'json': EST_P0}, {'cedar': 'permit(principal, action);'}, {'cedar': TEMPLATES['t0']['cedar']}, {'json': {'effect': 'permit'}},
-                {'cedar': '@id("x") permit(principal, action, resource) when { [1, 2].contains(1) && "a" like "a*" };'}]
+                {'cedar': '@id("x") permit(principal, action, resource) when { [1, 2].contains(1) && "a" like "a*" };'}, {'cedar': 'permit(principal, action, resource) when { true };'},
+                {'cedar': 'forbid(principal, action, resource) when { true } unless { false };'}]
     for d in pol_docs:
         out.append({'op': 'ffi_convert', 'what': 'policy_to_json', 'doc': d})
         out.append({'op': 'ffi_convert', 'what': 'policy_to_text', 'doc': d})
@@ -690,8 +691,8 @@ def cache_frame(ctx):
 
 
 def families(ctx):
-    from . import c19_utils, c19_routes
-    return c19_routes.families(ctx) + [('ffi::is_authorized', lambda: entry(ctx, 'is_authorized::is_authorized')), ('ffi::stateful_is_authorized', lambda: entry(ctx, 'stateful_is_authorized')),
+    from . import c19_utils, c19_routes, c19_cli
+    return c19_cli.families(ctx) + c19_routes.families(ctx) + [('ffi::is_authorized', lambda: entry(ctx, 'is_authorized::is_authorized')), ('ffi::stateful_is_authorized', lambda: entry(ctx, 'stateful_is_authorized')),
             ('response conversion', lambda: response_conversion(ctx)), ('call parse', lambda: call_parse(ctx)),
             ('preparse policies', lambda: preparse(ctx, 'policies')), ('preparse schema', lambda: preparse(ctx, 'schemas')), ('stateful parse', lambda: stateful_parse(ctx)),
             ('cache frame', lambda: cache_frame(ctx))] + c19_utils.families(ctx)
@@ -701,6 +702,8 @@ def run(ctx):
     ctx.prog('api')
     ctx.run_families(families(ctx))
     ctx.guarded('native battery', lambda: battery_selftest(ctx))
+    from . import c19_cli
+    ctx.guarded('native CLI battery', lambda: c19_cli.cli_selftest(ctx))
     n_shapes, n_hist = len(shape_cases()), len(histories())
     ctx.bounds += ['wrapper code only: each harness runs ONE function of cedar-policy/src/ffi/{is_authorized,utils,validate,check_parse,convert,format}.rs from its MIR on opaque documents; whatever it calls outside ffi/ (and the ffi function with its own obligation) is an environment stub that returns a value or an error freely',
                    f'collections: 0..{3 if ctx.tier == "thorough" else 2} static policies / slot values, up to {"3 templates + 2 links or 2 + 3" if ctx.tier == "thorough" else "2 templates + 2 links"} per policy set, 2 reasons + 2 errors in a response; larger collections are outside the symbolic claim',
@@ -711,12 +714,16 @@ def run(ctx):
                         '(their own meaning is C01..C18); miette wrap_err / Report conversions keep Ok and replace the error',
                         'HashMap iteration order is taken as the given order (the claims do not depend on it except that templates are added before links, which the code does by construction)',
                         'the dump is built with features partial-eval,tpe,protobufs: ValidationMode has the single value Strict there, so the settings reach the validator as a compile-time constant',
-                        'cedar-wasm (a re-export) and the CLI (exit status, printed decision: a separate binary crate with clap and file I/O) are NOT covered: see DESIGN.md section 4, C19']
+                        'CLI: `authorize`, `execute_request`, `validate` and `CedarExitCode::report` are executed from the MIR of the cedar-policy-cli library; clap argument parsing, file reading (PoliciesArgs::get_policy_set, '
+                        'get_schema, load_entities, RequestArgs::get_request) and the wording of messages are environment stubs; println! is a logged stub; the native CLI battery runs the real `cedar` binary built from the tree',
+                        'cedar-wasm (a re-export), the translate-policy / translate-schema / format / link / evaluate ... sub-commands of the CLI and is_authorized_partial are NOT covered: see DESIGN.md section 4, C19']
     return ctx.finish('Solver-decided wiring of the JSON / FFI authorization front end, executed from the MIR of the cedar-policy crate: (1) is_authorized / stateful_is_authorized answer Success with the conversion of '
                       'Authorizer::is_authorized on exactly the parsed (request, policies, entities), else Failure with the parse errors; (2) the response conversion keeps decision, every reason, every error; (3) AuthorizationCall::parse and '
                       'StatefulAuthorizationCall::parse put principal / action / resource / context in their positions, parse context and entities against the schema, hand the schema to Request::new iff validate_request, fail on any component error; '
                       '(4) preparse_* store exactly the parsed document under the given name and nothing on failure, the stateful call reads policies and schema under the names given and never writes, and nothing else names the caches; '
                       '(5) every utils.rs parse routes to the API constructor for its syntax with the id / schema / action given, and PolicySet / StaticPolicySet / TemplateLink assembly adds every part under its own id into the one returned set; '
                       '(6) validate returns every error and warning of Validator::new(schema).validate(policies, mode) under its own policy id, the conversions return the API text / JSON of the parsed document (schemas re-checked), the parse checks '
-                      'succeed iff the API parse (and context validation) does, format calls the formatter with the widths given. '
+                      'succeed iff the API parse (and context validation) does, format calls the formatter with the widths given; '
+                      '(7) CLI: `cedar authorize` exits 0 and prints ALLOW iff the API response allows, exits 2 and prints DENY iff it denies, exits 1 without a decision iff an input did not load, prints every error and (--verbose) every reason; '
+                      'it authorizes exactly the loaded request / policies / entities, read against the named schema; `cedar validate` exits 0 / 3 / 1 by the validation result (with --deny-warnings and --level honoured). '
                       'A native battery compares the JSON interface with the Rust API over all accepted input shapes and replays cache histories against a reference model.')
